@@ -43,6 +43,8 @@ def make_geom(rng, kind):
     if kind == "NEARSQUARE":
         return ("NEARSQUARE", rng.choice([4.0, 5.0, 6.5]), rng.choice([30.0, 45.0, 60.0]))
     length, width = rng.choice([(40.0, 30.0), (55.0, 36.5), (30.0, 48.0), (45.0, 45.0)])
+    if kind == "BIZONEDRECTANGLE" and rng.random() < 0.5:
+        length, width = 30.0, 20.0      # a small lot: the answer falls among the partially filled perimeter fields (L, U, open rectangle)
     b_min = rng.choice([4.0, 5.0, 6.0])
     if kind == "RECTANGLE":
         return ("RECTANGLE", length, width, b_min, rng.choice([10.0, 12.0]))
@@ -108,6 +110,20 @@ def make_cfgs(rng, n, months_choices=(12, 13, 24)):
         # maximum height (loads far too large), = 2: at the minimum height (negligible loads),
         # = 3: loads far too large without the flag (the error), = 0: random
         forced = (i // len(GEOMS) + i % len(GEOMS)) % 4
+        # ordinary searches also see plants that are off for whole months (exactly zero load), in both directions
+        if forced == 0 and i % 3 != 1:
+            pk = ["cooling_seasonal", "heating_seasonal"][(i // len(GEOMS)) % 2]
+            _, _, base_loads = ghelib.make_profile(rng, kind=pk, scale=1.0)
+            cfg["profile"], cfg["loads"] = pk, [x * cfg["scale"] for x in base_loads]
+        if forced == 0 and geom_kind == "BIZONEDRECTANGLE":
+            # a small lot whose answer falls among the partially filled perimeter fields (several candidates share one descriptor there)
+            sc = [0.13, 0.16, 0.19, 0.22][(i // len(GEOMS) + int(rng.random() * 4)) % 4]
+            cfg.update({"phys": {**ghelib.default_physics(), "fluid_temp": 20.0}, "pipe": "SINGLEUTUBE", "profile": "atlanta", "scale": sc,
+                        "loads": [x * sc for x in ghelib.atlanta_loads()], "months": 12, "max_eft": 35.0, "min_eft": 5.0, "min_h": 60.0, "max_h": 135.0,
+                        "max_boreholes": None, "cont": False, "geom": ("BIZONEDRECTANGLE", 30.0, 20.0, 5.0, 10.0, 12.0), "flow_type": "BOREHOLE",
+                        "nominal_height": 96.0})
+            cfg["flow"] = cfg["phys"]["flow"]
+            phys = cfg["phys"]
         # both flow specifications on ordinary (not forced) searches of every design method
         if forced == 0 and cfg["flow_type"] != "SYSTEM":
             cfg["flow_type"], cfg["flow"] = "SYSTEM", round(cfg["flow"] * (4, 12, 30)[i % 3], 3)
@@ -117,8 +133,10 @@ def make_cfgs(rng, n, months_choices=(12, 13, 24)):
             cfg["scale"], cfg["cont"], cfg["profile"] = 6.0 + (i % 5), True, "atlanta"
             cfg["loads"] = [x * cfg["scale"] for x in ghelib.atlanta_loads()]
         elif forced == 2:
-            cfg["scale"], cfg["cont"], cfg["profile"] = 0.002, True, "atlanta"
-            cfg["loads"] = [x * cfg["scale"] for x in ghelib.atlanta_loads()]
+            # negligible loads: mixed, rejection only and extraction only (the excess may then RISE with the height)
+            pk = ["atlanta", "cooling_seasonal", "heating_seasonal"][(i // len(GEOMS)) % 3]
+            cfg["scale"], cfg["cont"], cfg["profile"] = 0.002, True, pk
+            cfg["loads"] = [x * cfg["scale"] for x in ghelib.make_profile(rng, kind=pk, scale=1.0)[2]]
         elif forced == 3 and i % 3 == 0:
             cfg["scale"], cfg["cont"], cfg["profile"] = 6.0 + (i % 3), False, "atlanta_neg"
             cfg["loads"] = [-x * cfg["scale"] for x in ghelib.atlanta_loads()]
